@@ -352,7 +352,7 @@ def zoo_piece(rng, quotes=True, tags=True, special=True):
             if r == 0 and tags:
                 inner.append(" {" + ",".join(rng.choice(["a", "b1", "red", "w"]) for _ in range(rng.range(1, 3))) + "}")
             elif r == 1 and quotes:
-                inner.append(' "' + rng.choice(["q", "a-b|c", 'x\\"y', "", "一"]) + '"')
+                inner.append(' "' + rng.choice(["q", "a-b|c", 'x\\"y', "", "一", "a\u00a0b", "x\u2003y"]) + '"')
             else:
                 inner.append(" " + label(rng, special))
         return styled_box(rng, inner)
@@ -394,7 +394,7 @@ def zoo_piece(rng, quotes=True, tags=True, special=True):
         n = rng.range(2, 6)
         return "\n".join(rng.choice(["-", "=", "~", "_"]) * rng.range(2, 9) for _ in range(n))
     if quotes:
-        return " ".join(rng.choice(['"a-b"', '"|"', '"x\\"y"', '""', '"一二"', '"<&>"', '"&#60;"', '"&lt;&#x3c;"', '"a”|b"', '"“--"', '“x”', '"«-»"', "--", "+", "ab", '3"', '\\"x"', '"']) for _ in range(rng.range(1, 4)))
+        return " ".join(rng.choice(['"a\u00a0b"', '"x\ty"', '"一\u3000二"', '"a\u2003-"', '"a-b"', '"|"', '"x\\"y"', '""', '"一二"', '"<&>"', '"&#60;"', '"&lt;&#x3c;"', '"a”|b"', '"“--"', '“x”', '"«-»"', "--", "+", "ab", '3"', '\\"x"', '"']) for _ in range(rng.range(1, 4)))
     return label(rng, special)
 
 
